@@ -5,6 +5,7 @@
 package sim
 
 import (
+	"github.com/yorkie-team/yorkie/pkg/zzsimrt"
 	"bytes"
 	"context"
 	"errors"
@@ -78,6 +79,30 @@ func (simTransport) RoundTrip(req *http.Request) (*http.Response, error) {
 
 // InitProcess must run once per process, outside any bubble.
 func InitProcess() {
+	// sharded caches (pkg/cache): keys take shards in the order of their first
+	// appearance, or all the same shard when the run says so (then they evict each
+	// other: the tree gives every shard SnapshotCacheSize/16, at least 1, entries)
+	zzsimrt.ShardHook = func(cache, key string, shards int) int {
+		w := curWorld
+		if w == nil {
+			return 0
+		}
+		w.mu.Lock()
+		defer w.mu.Unlock()
+		if w.shards == nil {
+			w.shards = map[string]int{}
+		}
+		k := cache + "/" + key
+		i, ok := w.shards[k]
+		if !ok {
+			i = len(w.shards)
+			w.shards[k] = i
+		}
+		if w.Cfg.Extra["shard_collide"] > 0 {
+			return 0
+		}
+		return i % shards
+	}
 	_ = logging.SetLogLevel("fatal")
 	http.DefaultTransport = simTransport{}
 	metricsOnce.Do(func() {
@@ -181,6 +206,8 @@ type World struct {
 	RPCs     []*RPCRecord
 	keepRPCs bool
 	curCli   int
+	Intr     *intruderState // C13
+	shards   map[string]int // cache key -> order of first appearance
 	simIDs   int // identifiers handed out in place of process-random ones (step-level engine)
 
 	Projects []*types.Project
@@ -374,7 +401,17 @@ func (w *World) Restart() error {
 
 func (w *World) createProject(i int) error {
 	ctx := context.Background()
-	info, err := w.mem.CreateProjectInfo(ctx, fmt.Sprintf("proj%d", i), types.ID("000000000000000000000001"))
+	owner := types.ID("000000000000000000000001")
+	if w.Cfg.Extra["users"] > 0 {
+		// every project has an owner of its own (accounts are written directly: bcrypt
+		// costs 70 ms of real time; tokens are minted with the server's secret)
+		u, err := w.mem.CreateUserInfo(ctx, fmt.Sprintf("user%d", i), "not-a-bcrypt-hash")
+		if err != nil {
+			return fmt.Errorf("create user: %w", err)
+		}
+		owner = u.ID
+	}
+	info, err := w.mem.CreateProjectInfo(ctx, fmt.Sprintf("proj%d", i), owner)
 	if err != nil {
 		return fmt.Errorf("create project: %w", err)
 	}
